@@ -5,13 +5,6 @@ import Sonic.Model.WsHandshake
 namespace Driver.WsHandshake
 open Sonic.Spec.WsHandshake Sonic.Model.WsHandshake Driver.WsHandshakeSpec
 
-/-- The request is what the server checks: the five mandatory headers and the caller's. -/
-def reqWellFormed (hs : List (String × String)) (host key : String) (extra : List (String × String)) : Bool :=
-  hs.contains ("Host", host) && hs.any (fun h => eqFold h.1 "Upgrade" && eqFold h.2 "websocket") &&
-  hs.any (fun h => eqFold h.1 "Connection" && eqFold h.2 "upgrade") &&
-  hs.any (fun h => eqFold h.1 "Sec-WebSocket-Version" && h.2 == "13") &&
-  hs.any (fun h => eqFold h.1 "Sec-WebSocket-Key" && h.2 == key) && extra.all hs.contains
-
 /-- The uninterpreted parameters, instantiated for replay: the accept value is a formal term over the key, and
 `http.ReadResponse` answers what the generator built into the head. -/
 def paramsFor (p : Plan) : Params :=
@@ -22,12 +15,7 @@ def paramsFor (p : Plan) : Params :=
       else none,
     grow := fun c => 2 * c + 1 }
 
-def modelHs (s : St) (p : Plan) : St × HsObs :=
-  let w : Wire := { rest := delivered p, closed := p.closeAt.isSome, cuts := p.cuts }
-  let (s', e, w') := handshake (paramsFor p) s "key" w
-  let frame := if e = .nil then expectedFrame (frameStream s' w') p.closeAt.isSome else .none
-  (s', { reqOk := reqWellFormed (requestHeaders "host" "key" p.extra) "host" "key" p.extra, err := e, state := s'.state,
-         pending := s'.pending, peerClosed := e ≠ .nil ∧ ¬ s'.conn, frame := frame, srvExtra := 0 })
+def modelHs (s : St) (p : Plan) : St × HsObs := observe (paramsFor p) s "host" "key" p
 
 def tagsOf (p : Plan) (o : HsObs) : List String :=
   (if p.async then ["async"] else ["sync"]) ++
